@@ -117,6 +117,7 @@ def execute_scenario(mod, scenario, tier="quick", keep=False, deadline=None):
         mod.execute(scenario, ctx)
     finally:
         os.chdir("/")
+        core.end_all_sessions()
         if not keep:
             shutil.rmtree(sandbox, ignore_errors=True)
     return ctx
